@@ -13,7 +13,10 @@ demo=""
 if [ -n "$demo" ]; then
   CMINX_SRC=$d/src CMINX_REPO=$d $demo >/dev/null 2>&1; echo "demo without change: exit $?"
 fi
-if ! ( cd "$d" && git apply "$sd/patch.diff" ); then echo "PATCH DOES NOT APPLY"; exit 3; fi
+# (a later fix: commit may have shifted the context of an older patch: fall back to patch(1) with fuzz)
+if ! ( cd "$d" && git apply "$sd/patch.diff" 2>/dev/null ); then
+  if ! ( cd "$d" && patch -p1 -s --fuzz=3 --no-backup-if-mismatch < "$sd/patch.diff" ); then echo "PATCH DOES NOT APPLY"; exit 3; fi
+fi
 t=$(cd "$d" && PYTHONPATH=$d/src timeout 900 /venv/bin/python -m pytest -q -p no:cacheprovider 2>&1 | tail -1)
 echo "tests with change: $t"
 if [ -n "$demo" ]; then
